@@ -32,7 +32,13 @@ class StepCap(core.Reject):
     that does not stop within the harness' step bound) is outside the explored domain."""
 
 
+class Transient(RuntimeError):
+    """Raised once by a HashLM whose ``fail_next`` was set: an interrupted / failed model call (the harness catches it)."""
+
+
 class HashLM(MixableSequentialLanguageModel):
+    fail_next = False  # set on an instance: its next step raises Transient (once)
+
     def __init__(self, spec: dict, cap: Optional[int] = None):
         super().__init__(int(spec["V"]))
         self.spec = spec
@@ -68,6 +74,9 @@ class HashLM(MixableSequentialLanguageModel):
     def calc_idx_log_probs(self, hist: torch.Tensor, prev: Dict[str, torch.Tensor], idx: torch.Tensor
                            ) -> Tuple[torch.Tensor, Dict[str, torch.Tensor]]:
         self.calls += 1
+        if self.fail_next:
+            self.fail_next = False
+            raise Transient("HashLM: scripted failure of one model call")
         V = self.vocab_size
         state, cond = prev["state"], prev["cond"]
         N = state.size(0)
